@@ -63,6 +63,8 @@ def run(ctx, repo):
     ctx.call(RSTATE.r_directives_reset, repo)
     ctx.call(R6B.r_recursion_inventory, repo, ('composer', 'constructor', 'resolver'))
     ctx.call(R6B.r_value_chain_visited, repo)
+    ctx.call(R6B.r_yamlobject_loaders, repo)
+    ctx.call(R6B.r_no_module_getattr, repo)
 
 
 if __name__ == '__main__':
